@@ -11,6 +11,7 @@ import Proofs.Parse
 import Proofs.Complete
 import Proofs.KernelLen
 import Proofs.KernelTag
+import Proofs.KernelBits
 
 namespace Asn1.C09
 
@@ -100,6 +101,30 @@ theorem source_identifier_roundtrip (t : Tag) (ic : Bool) (r : Bytes) :
 example : GenK.decodeTag [0xFF, 0x8F, 0x28, 0x03, 0x02] = .ok [192, 32, 1960, 3] := by rfl
 example : GenK.decodeTag [0xFF, 0x8F] = .error (.lib "SubstrateUnderrunError") := by rfl
 example : GenK.decodeTag [0x04, 0x01] = .ok [0, 0, 4, 1] := by rfl
+
+/-- **BIT STRING contents at the source level**: the primitive branch of `BitStringPayloadDecoder.valueDecoder` together with
+    `BitString.fromOctetString` (both translated from /repo on this run) read any contents octets `c` as the model's
+    `bitsFromContent` does - the value object keeps the bit list as an integer and its length in bits -/
+theorem source_bit_string_contents_is_model (c : Bytes) :
+    GenK.bitsDecode (Kernels.bytesInts c) ((c.length : Nat) : Int) = Kernels.liftBits (bitsFromContent c) :=
+  Kernels.bitsDecode_kernel c
+
+/-- **every BIT STRING value is read back from its contents octets, at the source level**: what the model's encoder writes
+    for a bit list (unused-bits count, the bits left-aligned), the translated decoder branch reads as that bit list - for
+    every length, a multiple of eight or not -/
+theorem source_bit_string_roundtrip (bs : List Bool) :
+    GenK.bitsDecode (Kernels.bytesInts (bitsToContent bs)) (((bitsToContent bs).length : Nat) : Int) =
+      .ok (((bitsToNat bs : Nat) : Int), ((bs.length : Nat) : Int)) := by
+  rw [Kernels.bitsDecode_kernel, bitsFromContent_bitsToContent]
+  rfl
+
+/-- non-vacuity: `06 6E 5D C0` is the 18-bit string 011011100101110111 (X.690 8.6.4.2) = 0x1B977; `08 FF` and an empty
+    contents are refused; seven unused bits with no octet to hold them are refused -/
+example : GenK.bitsDecode [0x06, 0x6E, 0x5D, 0xC0] 4 = .ok (0x1B977, 18) := by rfl
+example : GenK.bitsDecode [0x08, 0xFF] 2 = .error (.lib "PyAsn1Error") := by rfl
+example : GenK.bitsDecode [] 0 = .error (.lib "PyAsn1Error") := by rfl
+example : GenK.bitsDecode [0x07] 1 = .error (.lib "PyAsn1Error") := by rfl
+example : GenK.bitsDecode [0x00] 1 = .ok (0, 0) := by rfl
 
 /-- over-long form: `82 00 03` is read as 3; the indefinite marker as -1 by BER and refused by a codec without
     indefinite lengths (DER) -/
